@@ -98,7 +98,8 @@ inline bool deliver_S(Rng& r, uint64_t idx)
   // schedule policy
   uint32_t const policy = static_cast<uint32_t>(r.below(5)); // 0 uniform, 1 starve backend, 2 poll after every statement, 3 exit before first poll, 4 bursts
   uint32_t const steps = static_cast<uint32_t>(r.range(40, 300));
-  uint64_t hard_limit_stops = 0, early_exits = 0, polled_yet = 0, flushes = 0;
+  uint64_t hard_limit_stops = 0, early_exits = 0, polled_yet = 0, flushes = 0, shrinks = 0;
+  bool shrink_ok = true;
   World* wp = &w;
   auto do_log = [&](SW& s)
   {
@@ -112,8 +113,9 @@ inline bool deliver_S(Rng& r, uint64_t idx)
   g_inject = [&](int p, void const*, uint64_t)
   {
     if (p == qv::BW_AFTER_READ_QUEUE) return;
-    if (!(p == qv::BW_AFTER_CACHE_REFRESH || p == qv::BW_BEFORE_READ_QUEUE || p == qv::BW_AFTER_DECODE_ONE || p == qv::BW_BATCH_NEXT || p == qv::BW_AFTER_POP || p == qv::BW_BEFORE_CLEANUP_CTX)) return;
-    if (!inject_budget || !r.chance(1, 6)) return;
+    if (!(p == qv::BW_AFTER_CACHE_REFRESH || p == qv::BW_BEFORE_READ_QUEUE || p == qv::BW_AFTER_DECODE_ONE || p == qv::BW_BATCH_NEXT || p == qv::BW_AFTER_POP || p == qv::BW_BEFORE_CLEANUP_CTX ||
+          p == qv::UQ_OLD_EMPTY_SEEN || p == qv::UQ_NEXT_SEEN || p == qv::UQ_BEFORE_DELETE)) return;
+    if (!inject_budget || !r.chance(1, p == qv::UQ_OLD_EMPTY_SEEN ? 12 : 6)) return;
     --inject_budget;
     auto idle = run.idle_workers();
     if (idle.empty()) return;
@@ -146,6 +148,31 @@ inline bool deliver_S(Rng& r, uint64_t idx)
       uint16_t li = static_cast<uint16_t>(r.below(w.loggers.size()));
       ++flushes;
       run.run_on(s, [wp, li] { tl_control_op = true; wp->loggers[li].lg->flush_log(0); tl_control_op = false; }, "flush_log");
+      continue;
+    }
+    if (!kBounded && x >= 89 && x < 92 && !idle.empty())
+    {
+      // shrink request on the caller's own queue: must take effect at once (capacity reported for that thread) and
+      // lose nothing; the backend follows when it switches nodes
+      SW& s = *idle[r.below(idle.size())];
+      bool* okp = &shrink_ok;
+      uint64_t c = r.pick<uint64_t>({64, 256, 1024, 4096, 100000});
+      ++shrinks;
+      run.run_on(s, [c, okp]
+                 {
+                   size_t const before = Fe::get_thread_local_queue_capacity();
+                   Fe::shrink_thread_local_queue(c);
+                   size_t const after = Fe::get_thread_local_queue_capacity();
+                   size_t want = 1;
+                   while (want < c) want <<= 1;
+                   bool const valid = c <= before / 2;
+                   if ((valid && after != want) || (!valid && after != before))
+                   {
+                     violation("C20", "shrink-request-did-not-take-effect", J{}.unum("before", before).unum("requested", c).unum("after", after).str("scenario", "deliver_S"));
+                     *okp = false;
+                   }
+                 },
+                 "shrink");
       continue;
     }
     if (x >= 96 && !idle.empty())
@@ -189,8 +216,9 @@ inline bool deliver_S(Rng& r, uint64_t idx)
   stat_add("mode_s_blocked_parks", static_cast<long long>(run.parks_seen));
   stat_add("threads_exited_before_first_poll", static_cast<long long>(early_exits));
   stat_add("flush_requests_interleaved", static_cast<long long>(flushes));
+  stat_add("shrink_requests_interleaved", static_cast<long long>(shrinks));
   stat_sig("deliver_sigs", "S/" + std::to_string(run.sig_hash));
   w.teardown_loggers();
-  return ok && !run.failed;
+  return ok && shrink_ok && !run.failed;
 }
 } // namespace e2e
